@@ -675,6 +675,7 @@ func init() {
 	I["internal/bytealg.CompareString"] = cmpF
 	I["strings.Compare"] = cmpF
 	I["strings.Clone"] = func(in *Interp, fn *ssa.Function, a []Value) Value { return a[0] }
+	I["internal/stringslite.Clone"] = I["strings.Clone"] // strings are immutable values here; the real body needs unsafe.String
 	I["internal/bytealg.MakeNoZero"] = func(in *Interp, fn *ssa.Function, a []Value) Value {
 		n := in.cint(a[0])
 		ts := make([]*Term, n)
